@@ -13,6 +13,7 @@
 from __future__ import annotations
 
 import itertools
+import re
 import threading
 import time
 from concurrent.futures import Future
@@ -50,8 +51,60 @@ class UnpicklableBoom(Exception):
         raise TypeError("cannot pickle UnpicklableBoom")
 
 
+class TwoArgBoom(Exception):
+    """`__init__` signature differs from `args`: unpickling calls TwoArgBoom('boom-3 x') and fails"""
+
+    def __init__(self, kid, extra):
+        super().__init__(f"boom-{kid} {extra}")
+        self.kid, self.extra = kid, extra
+
+
+class KwOnlyBoom(Exception):
+    def __init__(self, *, code):
+        super().__init__(f"boom-{code} kw")
+        self.code = code
+
+
+class LockAttrBoom(Exception):
+    """carries an attribute that cannot be serialised"""
+
+    def __init__(self, msg):
+        super().__init__(msg)
+        self.lock = threading.Lock()
+
+
+class LockArgBoom(Exception):
+    """carries an ARGUMENT that cannot be serialised"""
+
+
+class SlotsBoom(Exception):
+    __slots__ = ("x",)
+
+    def __init__(self, msg):
+        super().__init__(msg)
+        self.x = 3
+
+
 FAIL_KINDS = {"Boom": Boom, "BaseBoom": BaseBoom, "ValueError": ValueError, "ZeroDivisionError": ZeroDivisionError,
-              "Unpicklable": UnpicklableBoom}
+              "Unpicklable": UnpicklableBoom, "TwoArg": TwoArgBoom, "KwOnly": KwOnlyBoom, "LockAttr": LockAttrBoom,
+              "LockArg": LockArgBoom, "Slots": SlotsBoom, "OSError": FileNotFoundError, "StopIteration": StopIteration,
+              "Group": ExceptionGroup}
+EXOTIC_KINDS = ("Unpicklable", "TwoArg", "KwOnly", "LockAttr", "LockArg", "Slots", "OSError", "StopIteration", "Group")
+
+
+def make_exc(kind, kid):
+    """the exception a failing task of kind `kind` raises; its message always contains `boom-<kid>`"""
+    if kind == "TwoArg":
+        return TwoArgBoom(kid, "x")
+    if kind == "KwOnly":
+        return KwOnlyBoom(code=kid)
+    if kind == "LockArg":
+        return LockArgBoom(f"boom-{kid}", threading.Lock())
+    if kind == "OSError":
+        return FileNotFoundError(2, f"boom-{kid}", "nofile.txt")
+    if kind == "Group":
+        return ExceptionGroup(f"boom-{kid}", [ValueError("inner")])
+    return FAIL_KINDS[kind](f"boom-{kid}")
 
 
 def _flatten(args):
@@ -90,7 +143,7 @@ class TaskFn:
         if self.fail:
             with EXEC_LOCK:
                 EXEC_LOG.append((self.kid, vals, t0, time.perf_counter(), threading.get_ident(), self.run))
-            raise FAIL_KINDS[self.fail](f"boom-{self.kid}")
+            raise make_exc(self.fail, self.kid)
         out = mix(self.kid, vals)
         with EXEC_LOCK:
             EXEC_LOG.append((self.kid, vals, t0, time.perf_counter(), threading.get_ident(), self.run))
@@ -108,7 +161,18 @@ class TaskFn:
 # argspec = nested list of ints (positions in deps) and ["lit", v] literals; every dep position occurs at least once
 
 
-def key_of(i, kind):
+FALSY = [0, "", (), b""]   # distinct hashable keys that are false in a boolean context (False and 0.0 equal 0)
+
+
+def key_of(i, kind, n=None):
+    """key of node `i`; kind "falsy": the LAST four nodes of an n-node graph (the sinks, which are requested most
+    often; the first four when n is unknown) get the falsy keys 0, '', (), b'' and the others a mixture of the
+    three ordinary flavours"""
+    if kind == "falsy":
+        pos = (n - 1 - i) if n is not None else i
+        if 0 <= pos < len(FALSY):
+            return FALSY[pos]
+        return [f"k{i}", ("x", i), 100000 + i][i % 3]
     if kind == "str":
         return f"k{i}"
     if kind == "tuple":
@@ -157,7 +221,7 @@ def gen_dag(rng, n, p_data=0.25, p_alias=0.1, max_deps=3, keys=None, style=None,
                 if d not in deps:
                     deps.append(d)
             nodes.append(["t", deps, gen_argspec(rng, len(deps))])
-    dag = {"nodes": nodes, "keys": keys or rng.choice(["str", "tuple", "int"]),
+    dag = {"nodes": nodes, "keys": keys or rng.choice(["str", "tuple", "int", "falsy"]),
            "style": style or rng.choice(["legacy", "spec", "mixed"])}
     if missing and n >= 1:
         # a task that refers to a key that is not in the graph (only expressible with TaskRef)
@@ -190,7 +254,10 @@ def render(dag, fails=None, delays=None):
     fails = {int(k): v for k, v in (fails or {}).items()}
     delays = {int(k): v for k, v in (delays or {}).items()}
     kind, style = dag["keys"], dag["style"]
-    keys = [key_of(i, kind) for i in range(len(dag["nodes"]))]
+    if kind == "falsy":
+        # in a legacy graph the literal 0 / '' / () / b'' would BE a reference to the key of that name
+        style = "spec"
+    keys = [key_of(i, kind, len(dag["nodes"])) for i in range(len(dag["nodes"]))]
     dsk = {}
     RUN[0] += 1
     run = RUN[0]
@@ -230,10 +297,11 @@ def render(dag, fails=None, delays=None):
     return dsk, keys
 
 
-def reference_eval(dag, fails=None):
-    """Plain recursive evaluation of the abstract dag: id -> value | ("raise", id) ."""
+def reference_eval(dag, fails=None, cache0=None):
+    """Plain recursive evaluation of the abstract dag: id -> value | ("raise", id) .
+    cache0: values the caller supplies through `cache=` (they stand for the keys they name)."""
     fails = {int(k) for k in (fails or {})}
-    memo = {}
+    memo = {int(k): v for k, v in (cache0 or {}).items()}
 
     def ev(i):
         if i in memo:
@@ -254,13 +322,17 @@ def reference_eval(dag, fails=None):
     return ev
 
 
-def needed_ids(dag, req_ids):
+def needed_ids(dag, req_ids, cache0=None):
+    """ids reachable from the request; keys supplied through `cache=` are reached but not expanded"""
+    stop = {int(k) for k in (cache0 or {})}
     seen, st = set(), list(req_ids)
     while st:
         i = st.pop()
         if i in seen:
             continue
         seen.add(i)
+        if i in stop:
+            continue
         node = dag["nodes"][i]
         if node[0] == "a":
             st.append(node[1])
@@ -508,10 +580,15 @@ def priorities(dsk, idof):
     return pr, len(set(vals)) != len(vals)
 
 
-def model_run(ctx, dag, results_ids, prio, nw, cs, fail_ids, choices):
-    ans = ctx.lean(Sym("run"), enc_nodes(dag), list(results_ids), prio, nw, cs, sorted(fail_ids), list(choices))
-    outcome, log, final, result = ans
-    return {"outcome": outcome, "log": log, "final": final, "result": result}
+def model_run(ctx, dag, results_ids, prio, nw, cs, fail_ids, choices, req=None, cache0=None):
+    args = [enc_nodes(dag), list(results_ids), prio, nw, cs, sorted(fail_ids), list(choices)]
+    if req is not None:
+        args.append(req)
+        if cache0:
+            args.append(sorted([int(k), v] for k, v in cache0.items()))
+    ans = ctx.lean(Sym("run"), *args)
+    outcome, log, final, result = ans[:4]
+    return {"outcome": outcome, "log": log, "final": final, "result": result, "packed": ans[4] if req is not None else None}
 
 
 def classify_error(e):
@@ -521,11 +598,9 @@ def classify_error(e):
     if isinstance(e, Hang):
         return ["raised", ["hang"]]
     msg = str(e)
-    if isinstance(e, (Boom, BaseBoom, UnpicklableBoom)) or msg.startswith("boom-"):
-        try:
-            return ["failed", int(msg.split("-")[1].split()[0])]
-        except ValueError:
-            pass
+    m = re.search(r"boom-(\d+)", msg.split("\n")[0])
+    if m and (isinstance(e, tuple(FAIL_KINDS.values())) or msg.startswith("boom-")):
+        return ["failed", int(m.group(1))]
     if isinstance(e, ValueError) and msg.startswith("Missing dependency"):
         return ["raised", ["missingDep"]]
     if isinstance(e, ValueError) and "no accessible jobs" in msg:
@@ -575,7 +650,11 @@ def run_trace(ctx, inp, diff=True):
         chooser = list_chooser(inp["choices"], branching)
     else:
         chooser = rng_chooser(random.Random(inp.get("seed", 0)), inp.get("bias"))
-    real = controlled_run(dsk, real_req, nw, cs, chooser, idof)
+    kw = {"rerun_exceptions_locally": True} if inp.get("rerun") else {}
+    cache0 = {int(k): v for k, v in (inp.get("cache0") or {}).items()}
+    if cache0:
+        kw["cache"] = {keys[i]: v for i, v in cache0.items()}       # a caller-supplied (warm) cache
+    real = controlled_run(dsk, real_req, nw, cs, chooser, idof, **kw)
     real["exec_log"] = exec_log()
     real["branching"] = branching
     out = {"real": real, "dag": dag, "keys": keys, "idof": idof, "flat_ids": flat_ids, "fails": fails,
@@ -587,7 +666,7 @@ def run_trace(ctx, inp, diff=True):
         out["order_error"] = e
         return out
     out["ties"] = ties
-    model = model_run(ctx, dag, flat_ids, prio, nw, cs, sorted(fails), real["choices"])
+    model = model_run(ctx, dag, flat_ids, prio, nw, cs, sorted(fails), real["choices"], req=req, cache0=cache0)
     out["model"] = model
     if not diff:
         return out
@@ -614,7 +693,13 @@ def run_trace(ctx, inp, diff=True):
     if ok and m_out[0] == "done":
         r_flat = list(flatten_req(_tuple_to_list(real["result"]))) if isinstance(real_req, list) else [real["result"]]
         ctx.eq("result values", [x if isinstance(x, int) else str(x) for x in model["result"]], r_flat)
+        # the whole packed result: nested_get(result, cache) of the model vs what the real call returned
+        ctx.eq("packed result (nested_get)", _sym_to_str(model["packed"]), _tuple_to_list(real["result"]))
     return out
+
+
+def _sym_to_str(x):
+    return [_sym_to_str(e) for e in x] if isinstance(x, list) else (x if isinstance(x, int) else str(x))
 
 
 def _tuple_to_list(x):
